@@ -311,6 +311,8 @@ def run(ctx):
         generic = 'BLsig' if n == 96 else 'sig'
         for i in range(reps_k):
             d = bytes(n) if i == 0 else b'\xff' * n if i == 1 else rng.bytes_(n)
+            if i in (2, 3):      # a signature that also reads as PACKed data: 05, then a bytes / string literal filling the rest
+                d = b'\x05' + (b'\x0a' if i == 2 else b'\x01') + (n - 6).to_bytes(4, 'big') + (rng.bytes_(n - 6) if i == 2 else b'a' * (n - 6))
             v = b58c(binp, d)
             g = b58c(SIGS[generic][0], d)
             rp = {'kind': kind, 'signature': d.hex(), 'value': v}
@@ -327,6 +329,8 @@ def run(ctx):
     # ---- chain ids -------------------------------------------------------------------------------
     for i in range(reps_k * 2):
         d = bytes(4) if i == 0 else b'\xff' * 4 if i == 1 else rng.bytes_(4)
+        if i in (2, 3, 4):      # a chain id that also reads as PACKed data: 05 00 <two-byte zarith integer>
+            d = b'\x05\x00' + bytes([0x80 | rng.randrange(0x80), rng.randrange(1, 0x80)])
         v = b58c(NET, d)
         rp = {'chain_id': d.hex(), 'value': v}
         ctx.case({'op': 'chain_id', **rp}, nontrivial=False)
